@@ -297,8 +297,20 @@ def scan_entropy(mod):
                     ok, how = True, "membership/comparison"
                 elif isinstance(p, ast.Call) and isinstance(p.func, ast.Attribute) and p.func.attr in MEMBERSHIP_METHODS:
                     ok, how = True, f".{p.func.attr}()"
-                elif isinstance(p, ast.Assign) and fn == "id":
-                    ok, how = None, "assigned"
+                elif isinstance(p, ast.Assign) and len(p.targets) == 1 and isinstance(p.targets[0], ast.Name):
+                    # bound to a local: every use of that local must itself be a membership use
+                    v = p.targets[0].id
+                    f = p
+                    while f is not None and not isinstance(f, FUNC):
+                        f = getattr(f, "_parent", None)
+                    uses = [x for x in ast.walk(f) if isinstance(x, ast.Name) and x.id == v and isinstance(x.ctx, ast.Load)] if f is not None else []
+                    def member(x):
+                        q = getattr(x, "_parent", None)
+                        return isinstance(q, ast.Compare) or (isinstance(q, ast.Call) and isinstance(q.func, ast.Attribute) and q.func.attr in MEMBERSHIP_METHODS and x in q.args)
+                    if uses and all(member(x) for x in uses):
+                        ok, how = True, f"bound to `{v}`, which is only used for membership"
+                    else:
+                        ok, how = None, "assigned"
                 else:
                     ok, how = None, f"used in {type(p).__name__}"
                 yield n, fn, ok, how
